@@ -2,7 +2,8 @@
 # usage: thorough.sh <property>  (called by run.sh <property> thorough; dawnlint already built)
 # (i) the property's rules under four build configurations (one process each);
 # (ii) sensitivity: every /verif/mutants/<property>-*.patch and neutral-*.patch applied to a scratch copy of
-#      /repo's current tree (created, analysed, deleted, one at a time) — informational, never changes the verdict;
+#      /repo's current tree (created, analysed, deleted, one at a time), likewise every seeded change of
+#      /verif/seeded/<property>*/ — informational, never changes the verdict;
 # (iii) final run on the default configuration writes the evidence (tier thorough) including (i) and (ii).
 set -u
 HERE="$(cd "$(dirname "$0")" && pwd)"
@@ -25,9 +26,10 @@ for cfg in windows/amd64 darwin/arm64 linux/386; do
 done
 SENS_JSON=""
 det=0; app=0
-for patch in "$HERE"/mutants/$PROP-*.patch "$HERE"/mutants/neutral-*.patch; do
+for patch in "$HERE"/mutants/$PROP-*.patch "$HERE"/seeded/$PROP*/patch.diff "$HERE"/mutants/neutral-*.patch; do
   [ -f "$patch" ] || continue
   name=$(basename "$patch" .patch)
+  case "$patch" in */seeded/*) name="seed-$(basename "$(dirname "$patch")")";; esac
   res=$("$HERE/tools/runmut.sh" "$patch" "$PROP" 2>&1 | head -1)
   case "$name" in
     neutral-*) case "$res" in *MISSED*) st="silent-as-expected";; *DETECTED*) st="FALSE-ALARM";; *) st="not-applicable";; esac;;
